@@ -8,6 +8,7 @@ package main
 // call graph and never named.
 
 import (
+	"fmt"
 	"go/types"
 	"strings"
 
@@ -126,6 +127,74 @@ func voucherAtoms() ([]AtomDef, []Derivation) {
 				return len(args) >= 2 && paramOf("crypto.Signer")(m, args[1])
 			}),
 	}
+	// "no entry is left": len(entries[1:]) == 0, len(entries) == 1, len(entries) < 2 ...
+	entriesLen := func(m *Matcher, v ssa.Value) (tail bool, ok bool) {
+		call, isCall := intRootNoVar(v).(*ssa.Call)
+		if !isCall {
+			return false, false
+		}
+		bi, isB := call.Call.Value.(*ssa.Builtin)
+		if !isB || bi.Name() != "len" {
+			return false, false
+		}
+		arg := call.Call.Args[0]
+		if sl, isSl := arg.(*ssa.Slice); isSl {
+			if sl.Low != nil && isConstInt(sl.Low, 1) && sl.High == nil && paramOf("VoucherEntryPayload")(m, sl.X) {
+				return true, true
+			}
+			return false, false
+		}
+		if _, isParam := arg.(*ssa.Parameter); isParam && paramOf("VoucherEntryPayload")(m, arg) {
+			return false, true
+		}
+		return false, false
+	}
+	atoms = append(atoms, AtomDef{Name: "tail-empty", Doc: "no entry is left after the current one (len(entries[1:]) == 0 or an equivalent comparison on the entries parameter alone)", Edge: func(m *Matcher, pd Pred, holds bool) bool {
+		// upper bound established on len(...): want len(tail) <= 0 or len(all) <= 1
+		type ub struct {
+			v ssa.Value
+			c int64
+		}
+		var got []ub
+		cst := func(v ssa.Value) (int64, bool) { return constInt(intRootNoVar(v)) }
+		switch pd.Kind {
+		case "eq":
+			if holds {
+				if c, ok := cst(pd.Y); ok {
+					got = append(got, ub{pd.X, c})
+				}
+				if c, ok := cst(pd.X); ok {
+					got = append(got, ub{pd.Y, c})
+				}
+			}
+		case "lt":
+			if holds { // X < Y
+				if c, ok := cst(pd.Y); ok {
+					got = append(got, ub{pd.X, c - 1})
+				}
+			} else { // Y <= X
+				if c, ok := cst(pd.X); ok {
+					got = append(got, ub{pd.Y, c})
+				}
+			}
+		case "le":
+			if holds { // X <= Y
+				if c, ok := cst(pd.Y); ok {
+					got = append(got, ub{pd.X, c})
+				}
+			} else { // Y < X
+				if c, ok := cst(pd.X); ok {
+					got = append(got, ub{pd.Y, c - 1})
+				}
+			}
+		}
+		for _, g := range got {
+			if tail, ok := entriesLen(m, g.v); ok && ((tail && g.c <= 0) || (!tail && g.c <= 1)) {
+				return true
+			}
+		}
+		return false
+	}})
 	der := []Derivation{
 		{"entry-ok", []Atom{"entry-sig-true", "entry-sig-noerr", "entry-hdrhash-alg-eq", "entry-hdrhash-eq", "entry-prevhash-eq"}},
 		{"chain-verified", []Atom{"no-entries"}},
@@ -176,7 +245,7 @@ func voucherVerifierObligations(f *Flow, r *Result, prefix string, want []string
 	// recurse on the tail with the key of the entry it just verified
 	if ve := f.P.ByName["fdo.Voucher.VerifyEntries"]; ve != nil && f.Region[ve] {
 		rule := prefix + ".chain-recursion"
-		r.rule(rule, "the entry validator is started with the header's manufacturer key and a hash over GUID||DeviceInfo, and recurses on entries[1:] with the public key of the entry just verified")
+		r.rule(rule, "the entry validator is started with the header's manufacturer key and a hash over GUID||DeviceInfo, and recurses on entries[1:] with the public key of the entry just verified; it reports success without recursing only when no entry is left")
 		r.floor(rule, 2)
 		var helper *ssa.Function
 		for _, e := range f.P.CallGraph().out[ve] {
@@ -228,6 +297,16 @@ func voucherVerifierObligations(f *Flow, r *Result, prefix string, want []string
 			}
 			if n == 0 {
 				r.fail("%s: entry validator %s does not recurse (loop form not understood by this rule)", rule, f.P.FuncName(helper))
+			}
+			// base case: the validator reports success without recursing only
+			// when no entry is left, so that every entry of the chain is checked
+			errIdx := helper.Signature.Results().Len() - 1
+			for i, sr := range f.successReturns(helper, errIdx) {
+				if c, isC := returnValue(sr.Ret, errIdx).(*ssa.Const); !isC || !c.IsNil() {
+					continue // the tail call
+				}
+				r.table(f.P, rule, fmt.Sprintf("base case return #%d of %s", i, f.P.FuncName(helper)), f.P.instrPos(sr.Ret), f.StateAt(sr.Ret).Has("tail-empty"),
+					"success without recursing requires that no entry is left (a comparison of len(entries[1:]) / len(entries) with a constant, on the entries parameter alone)")
 			}
 		}
 	}
